@@ -15,11 +15,12 @@ for id in $ids; do
   prop=$(python3 -c "import json,sys;print(json.load(open('$dir/meta.json'))['property'])")
   props=$(python3 -c "import json,sys;m=json.load(open('$dir/meta.json'));print(' '.join(m.get('properties',[m['property']])))")
   exp=$(python3 -c "import json;print(json.load(open('$dir/meta.json')).get('expect',''))")
+  tier=$(python3 -c "import json;print(json.load(open('$dir/meta.json')).get('tier','quick'))")
   git apply "$dir/patch.diff" || { echo "$id: patch does not apply"; missed=$((missed+1)); continue; }
   if ! go build ./... 2>/dev/null; then echo "$id: does not build"; git checkout -- .; continue; fi
   rc=0; names=""
   for p in $props; do
-    out=$(timeout 900 /verif/bin/govc check -property "$p" -tier quick 2>&1); r=$?
+    out=$(GOVC_NO_SENSITIVITY=1 timeout 900 /verif/bin/govc check -property "$p" -tier $tier 2>&1); r=$?
     [ $r -ne 0 ] && rc=$r
     names="$names $(echo "$out" | grep -E '^VIOLATION' | head -3 | sed -E 's/.*replay=[^ ]*replays\/[^\/]*\///' | tr '\n' ' ')"
   done
